@@ -13,6 +13,8 @@
 # limitations under the License.
 
 
+import jax.numpy as jnp
+
 from genjax._src.core.compiler.interpreters.incremental import (
     Diff,
     NoChange,
@@ -66,7 +68,8 @@ class SwitchTrace(Generic[R], Trace[R]):
         Note:
             This method assumes that the first argument passed to the Switch was the index used for branch selection.
         """
-        return self.get_args()[0]
+        # out-of-range indices are clamped, as documented for `switch`
+        return jnp.clip(self.get_args()[0], 0, len(self.subtraces) - 1)
 
     def get_args(self) -> tuple[Any, ...]:
         return self.args
@@ -153,6 +156,10 @@ class Switch(Generic[R], GenerativeFunction[R]):
         )
         return tree_choose(idx, retvals)
 
+    def _clamp(self, idx):
+        """Out-of-range indices are clamped to within bounds (see the class docstring)."""
+        return jnp.clip(idx, 0, len(self.branches) - 1)
+
     def _check_args_match_branches(self, args):
         assert len(args) == len(self.branches)
 
@@ -163,7 +170,7 @@ class Switch(Generic[R], GenerativeFunction[R]):
         key: PRNGKey,
         args: tuple[Any, ...],
     ) -> SwitchTrace[R]:
-        idx, branch_args = args[0], args[1:]
+        idx, branch_args = self._clamp(args[0]), args[1:]
         self._check_args_match_branches(branch_args)
 
         fs = list(f.simulate for f in self.branches)
@@ -180,7 +187,7 @@ class Switch(Generic[R], GenerativeFunction[R]):
         sample: ChoiceMap,
         args: tuple[Any, ...],
     ) -> tuple[Score, R]:
-        idx, branch_args = args[0], args[1:]
+        idx, branch_args = self._clamp(args[0]), args[1:]
         self._check_args_match_branches(branch_args)
 
         fs = list(f.assess for f in self.branches)
@@ -194,7 +201,7 @@ class Switch(Generic[R], GenerativeFunction[R]):
         constraint: ChoiceMap,
         args: tuple[Any, ...],
     ) -> tuple[SwitchTrace[R], Weight]:
-        idx, branch_args = args[0], args[1:]
+        idx, branch_args = self._clamp(args[0]), args[1:]
         self._check_args_match_branches(branch_args)
 
         fs = list(f.generate for f in self.branches)
@@ -268,7 +275,7 @@ class Switch(Generic[R], GenerativeFunction[R]):
         self._check_args_match_branches(branch_argdiffs)
 
         primals = Diff.tree_primal(argdiffs)
-        new_idx = primals[0]
+        new_idx = self._clamp(primals[0])
 
         if Diff.tree_tangent(idx_diff) == NoChange:
             # If the index hasn't changed, perform edits on each branch.
